@@ -144,12 +144,30 @@ let spec_line (line : Stdlib.String.t) =
      | RUnmodelled -> Printf.printf "%s unmodelled\n" id)
   | [] -> ()
 
+let print_line (line : Stdlib.String.t) =
+  let parts = Stdlib.String.split_on_char ' ' line in
+  match parts with
+  | id :: rest ->
+    toks := Array.of_list rest; pos := 0;
+    let _ = next () in
+    let nt = next_int () in
+    let xs = times nt parse_table in
+    let one x =
+      match print_table x with
+      | None -> "err"
+      | Some t ->
+        let idx = Stdlib.List.map (fun i -> match print_index x.x_t i with Some s -> hex s | None -> "ERR") x.x_t.t_idx in
+        if Stdlib.List.mem "ERR" idx then "err" else Stdlib.String.concat "," (hex t :: idx) in
+    let o = if xs = [] then "-" else Stdlib.String.concat ";" (Stdlib.List.map one xs) in
+    Printf.printf "%s %s\n" id o
+  | [] -> ()
+
 let () =
   let mode = if Array.length Sys.argv > 1 then Sys.argv.(1) else "regex" in
   try
     while true do
       let line = input_line stdin in
-      if mode = "spec" then spec_line line else
+      if mode = "spec" then spec_line line else if mode = "print" then print_line line else
       match Stdlib.String.split_on_char ' ' line with
       | [id; text; cols; hidden; pk; partials; fks] ->
         let r = recover (hb text) (hlist cols) (hlist hidden) (hlist pk) (hlist partials)
